@@ -505,6 +505,9 @@ func shapeSources() []string {
 		"F64 in [1, 2, 3]", "F32 in [1, 2]", "2.5 in [1, 2, 3]", "1.5 in AI", "F64 in AI", "F64 in 1..3", "U8 in [200, 404, 500]", "U16 in [80, 443, 70000]", "I8 in [100, 300]", "I16 in [44, 65580]",
 		"Sum(1, 2) + Sum(1)", "Sum(1) + Sum(10, 20)", "Sum(1, 2, 3) + Sum()", "[Fast(1, 2), Fast(3)]", "Fast(1) + Fast(1, 2, 3)", "St.Get() + P.Get()", "Add(1, 2) + Add(3, 4) + Inc(5)",
 	}
+	// string literals that SPELL a punctuation token or an operator: a literal is a literal wherever the parser asks for a token by value
+	out = append(out, `count(AS, {# == "#"})`, `map(AS, {# + "#"})`, `S contains "."`, `S == "("`, `len([")", "]"])`, `filter(AS, {# != "."})`, `[":", ","][0]`, `S + ":" + S2`,
+		`{"a": ":"}.a`, `B ? "?" : ":"`, `S in ["(", ")", "#"]`, `Concat("(", ")")`, `"." + "."`, `AS[0] == "["`, `"not" == "not"`, `"in" in ["in", "and", "or"]`, `all(AS, {# != "{" and # != "}"})`)
 	// arithmetic with the neutral literal: the result has the PROMOTED kind (uint8 * 1 is an int), never the operand itself
 	for _, k := range []string{"U8", "U16", "U32", "U", "U64", "I8", "I16", "I32", "I64", "I", "F32", "F64"} {
 		out = append(out, k+" * 1", "1 * "+k, k+" / 1", k+" + 0", "0 + "+k, k+" - 0", "-("+k+" * 1)", "("+k+" * 1) == I", k+" * 1 * 1", k+" + 0 + 0", k+" + 1 + 1", "1 + "+k+" + 1", k+" - 1 - 1", k+" * 3 * 3")
